@@ -39,6 +39,24 @@ struct Dumper {
     vtables: BTreeMap<String, Value>,
     stop: Vec<String>,
     statics: BTreeMap<String, Value>,
+    next_def: Option<FnDef>,
+    into_iter_def: Option<FnDef>,
+}
+
+fn find_trait_fn(trait_suffix: &str, fn_name: &str) -> Option<FnDef> {
+    for t in rustc_public::all_trait_decls() {
+        let n = t.name();
+        if n == trait_suffix || n.ends_with(&format!("::{}", trait_suffix)) {
+            for it in t.associated_items() {
+                if let AssocKind::Fn { name, .. } = &it.kind {
+                    if name == fn_name {
+                        return Some(FnDef(it.def_id.0));
+                    }
+                }
+            }
+        }
+    }
+    None
 }
 
 fn ikind(i: &Instance) -> &'static str {
@@ -676,6 +694,27 @@ impl Dumper {
                     }
                 }
             }
+            // iterator drivers summarised by mirsym: pre-resolve IntoIterator::into_iter and
+            // Iterator::next for their iterator argument so that the summary can drive the real code
+            if (def_name.contains("FromIterator") && def_name.ends_with("::from_iter"))
+                || (def_name.contains("Extend<") && def_name.ends_with("::extend"))
+            {
+                let last_ty = i.args().0.iter().rev().find_map(|a| a.ty().copied());
+                if let (Some(it_ty), Some(ii), Some(nx)) = (last_ty, self.into_iter_def, self.next_def) {
+                    let a1 = GenericArgs(vec![GenericArgKind::Type(it_ty)]);
+                    if let Ok(into_inst) = Instance::resolve(ii, &a1) {
+                        let ret = into_inst.fn_abi().ok().map(|a| a.ret.ty);
+                        entry["into_iter"] = self.inst_ref(into_inst);
+                        if let Some(rt) = ret {
+                            let a2 = GenericArgs(vec![GenericArgKind::Type(rt)]);
+                            if let Ok(next_inst) = Instance::resolve(nx, &a2) {
+                                entry["iter_next"] = self.inst_ref(next_inst);
+                                entry["iter_ty"] = json!(self.ty(rt));
+                            }
+                        }
+                    }
+                }
+            }
             let targs: Vec<Value> = i.args().0.iter().filter_map(|a| a.ty().map(|t| json!(self.ty(*t)))).collect();
             entry["targs"] = json!(targs);
             if stopped {
@@ -737,7 +776,10 @@ fn dump() -> ControlFlow<()> {
         vtables: BTreeMap::new(),
         stop,
         statics: BTreeMap::new(),
+        next_def: find_trait_fn("iter::Iterator", "next"),
+        into_iter_def: find_trait_fn("iter::IntoIterator", "into_iter"),
     };
+    eprintln!("mirdump: Iterator::next {:?} IntoIterator::into_iter {:?}", d.next_def.map(|d| d.name()), d.into_iter_def.map(|d| d.name()));
     let v = d.run(roots);
     std::fs::write(&out, serde_json::to_string(&v).unwrap()).expect("write MIRDUMP_OUT");
     eprintln!("mirdump: {} fns, {} types -> {}", d.fns.len(), d.types.len(), out);
